@@ -490,20 +490,8 @@ func tableAndColumnsPreferredWidths(context *layoutContext, box_ Box, outer bool
 	// Define the total horizontal border spacing
 	var totalHorizontalBorderSpacing pr.Float
 	if table.Style.GetBorderCollapse() == "separate" && gridWidth > 0 {
-		var tot pr.Float = 1
-		for _, column := range zippedGrid {
-			any := false
-			for _, b := range column {
-				if b != nil {
-					any = true
-					break
-				}
-			}
-			if any {
-				tot += 1
-			}
-		}
-		totalHorizontalBorderSpacing = table.Style.GetBorderSpacing()[0].Value * tot
+		// every column has its spacing, as in tableLayout
+		totalHorizontalBorderSpacing = table.Style.GetBorderSpacing()[0].Value * pr.Float(gridWidth+1)
 	}
 
 	if gridWidth == 0 || gridHeight == 0 {
